@@ -1,6 +1,7 @@
 """C12 — interfaces have a total, hash-consistent, process-independent order.
 
-Lean: ZI/Props/C12.lean (operator protocol over interfaces / Implements / None / foreign objects, both twins, sorting).
+Lean: ZI/Props/C12.lean (operator protocol over interfaces / Implements / None / foreign objects with and without comparison
+methods of their own / interfaces the constructor left None-named, both twins, sorting).
 Tie: every comparison, hash relation and sort of generated operand sets is executed on both twins under three hash
 seeds and compared with the model of that twin (methodC / methodPy).
 Oracle: the statement itself, evaluated in the harness on (name, module) tuples."""
@@ -11,11 +12,20 @@ from .. import core, runner
 THEOREMS = ["ZI.Order.C12_eq_iff", "ZI.Order.C12_hash", "ZI.Order.C12_trichotomy", "ZI.Order.C12_lt_irrefl",
             "ZI.Order.C12_lt_trans", "ZI.Order.C12_derived", "ZI.Order.C12_none_last", "ZI.Order.C12_mixed_order",
             "ZI.Order.C12_impl_identity", "ZI.Order.C12_twin", "ZI.Order.C12_lt_by_key", "ZI.Order.C12_sort",
-            "ZI.Order.c_eq_py", "ZI.Order.py_trichotomy"]
+            "ZI.Order.c_eq_py", "ZI.Order.py_trichotomy",
+            "ZI.Order.C12_defers", "ZI.Order.C12_reflected", "ZI.Order.C12_proxy", "ZI.Order.C12_sentinel",
+            "ZI.Order.C12_anon_order", "ZI.Order.C12_anon_eq_iff", "ZI.Order.C12_anon_hash", "ZI.Order.C12_anon_none_last",
+            "ZI.Order.C12_sort_anon", "ZI.Order.mkIface_cases"]
 
-NAMES = ["", "I", "IA", "IB", "IAA", "a", "a.b", "m", "z", "é", "Ω", "Í", "\U0001F600x", "Z", "_"]
+NAMES = ["", "I", "IA", "IB", "IAA", "a", "a.b", "m", "z", "é", "Ω", "Í", "\U0001F600x", "Z", "_", "a\tb", "I\u00a0A"]
+# names with a blank: `Element.__init__` files a *docless* one as the docstring and leaves `__name__` None, so the final
+# pair is (None, module); with a docstring the name is kept.  (NAMES has near misses: a tab, a no-break space.)
+BLANK_NAMES = ["a b", " ", "I A", "IA ", "é Ω", "a b c", "  "]
 MODS = ["", "m", "m.n", "n", "zope.interface.declarations", "é", "a", "z", "M"]
 OPS = ["lt", "le", "gt", "ge", "eq", "ne"]
+SWAP = dict(lt="gt", le="ge", gt="lt", ge="le", eq="eq", ne="ne")
+LIB = "IMA"           # operands whose comparison methods are the library's: interface, class specification, None-named interface
+STRNAMED = "IMFW"     # operands that carry (a proxy: stand for) a *string* __name__
 SEEDS = ["0", "1", "4242"]
 
 
@@ -23,11 +33,24 @@ def enc(s):
     return "-" if s == "" else ",".join(str(ord(c)) for c in s)
 
 
-def gen_script(rnd, tier):
+def final_kind(kind, name):
+    """the operand class of `def <id> I|D name module`: "A" = the constructor leaves `__name__` None"""
+    return "A" if kind == "I" and " " in name else "I"
+
+
+def outside(ka, kb):
+    """a None-named interface against an operand with a string name: `(None, m) < ('x', m)` is a TypeError of Python's own;
+    the property quantifies over name/module *strings*, these pairs are outside its domain (counted, not judged)"""
+    return (ka[0] == "A" and kb[0] in STRNAMED) or (kb[0] == "A" and ka[0] in STRNAMED)
+
+
+def gen_script(rnd, tier, cmpx=False):
+    """`cmpx`: also emit the comparisons of pairs outside the domain (as `cmpx` lines: executed, reported, never judged)"""
     L = ["reset"]
     ops = {}          # id -> (kind, key)
-    n = rnd.randint(5, 9)
+    n = rnd.randint(6, 10)
     keys = []
+    anons = []        # (text, module) of the None-named interfaces
     for i in range(1, n + 1):
         r = rnd.random()
         if keys and r < 0.3:
@@ -37,11 +60,31 @@ def gen_script(rnd, tier):
             k = (k0[0], rnd.choice(MODS)) if rnd.random() < 0.5 else (rnd.choice(NAMES), k0[1])
         else:
             k = (rnd.choice(NAMES), rnd.choice(MODS))
-        kind = rnd.choice("IIIIIMMFP" if i > 2 else "II")
-        if kind == "I":
-            keys.append(k)
-            ops[i] = ("I", k)
-            L.append("def %d I %s %s" % (i, enc(k[0]), enc(k[1])))
+        kind = rnd.choice("IIIIIIMMFPWSB" if i > 2 else "IIIB")
+        if anons and kind in "IMF" and rnd.random() < 0.3:
+            kind = "B"
+        if kind == "B":
+            # an interface whose name has a blank: docless (None-named; biased towards another text in the module of an
+            # earlier one: equal final pairs from different constructor arguments) or with a docstring (keeps the name)
+            if anons and rnd.random() < 0.6:
+                t0, m0 = rnd.choice(anons)
+                k = (rnd.choice(BLANK_NAMES), m0) if rnd.random() < 0.8 else (t0, m0)
+            else:
+                k = (rnd.choice(BLANK_NAMES), k[1])
+            kind = "D" if rnd.random() < 0.25 else "I"
+        elif kind == "I" and rnd.random() < 0.1:
+            kind = "D"
+        if kind == "W" and not any(v[0] == "I" for v in ops.values()):
+            kind = "S"
+        if kind in "ID":
+            fk = final_kind(kind, k[0])
+            if fk == "A":
+                anons.append(k)
+                ops[i] = ("A", (None, k[1]))
+            else:
+                keys.append(k)
+                ops[i] = ("I", k)
+            L.append("def %d %s %s %s" % (i, kind, enc(k[0]), enc(k[1])))
         elif kind == "M":
             if rnd.random() < 0.3 and keys:
                 # a class whose specification key collides with nothing but is close to an interface name
@@ -52,17 +95,37 @@ def gen_script(rnd, tier):
         elif kind == "F":
             ops[i] = ("F", k)
             L.append("def %d F %s %s" % (i, enc(k[0]), enc(k[1])))
+        elif kind == "W":
+            # a transparent proxy of an earlier interface, biased towards one whose key another interface shares
+            cands = [j for j, v in ops.items() if v[0] == "I"]
+            dup = [j for j in cands if sum(1 for v in ops.values() if v == ops[j]) > 1]
+            t = rnd.choice(dup if dup and rnd.random() < 0.5 else cands)
+            ops[i] = ("W", t)
+            L.append("def %d W %d" % (i, t))
+        elif kind == "S":
+            e, o = rnd.choice([(1, "n"), (1, "n"), (0, "n"), (1, "0"), (0, "1"), (1, "1")])   # (1, n) = unittest.mock.ANY
+            ops[i] = ("S", (bool(e), None if o == "n" else o == "1"))
+            L.append("def %d S %d %s" % (i, e, o))
         else:
             ops[i] = ("P", None)
             L.append("def %d P" % i)
     ids = [str(i) for i in ops] + ["N"]
+    desc = {str(i): v for i, v in ops.items()}
+    desc["N"] = ("N", None)
     for a, b in itertools.product(ids, ids):
+        if outside(desc[a], desc[b]):
+            if cmpx:
+                for op in OPS:
+                    L.append("cmpx %s %s %s" % (op, a, b))
+            continue
         for op in OPS:
             L.append("cmp %s %s %s" % (op, a, b))
         L.append("heq %s %s" % (a, b))
     sortable = [str(i) for i, (k, _) in ops.items() if k in "IM"] + ["N"]
+    anon_ids = [str(i) for i, (k, _) in ops.items() if k == "A"] + ["N"]
     for _ in range(3):
-        xs = [rnd.choice(sortable) for _ in range(rnd.randint(2, 10))]
+        pool = anon_ids if len(anon_ids) > 2 and rnd.random() < 0.4 else sortable
+        xs = [rnd.choice(pool) for _ in range(rnd.randint(2, 10))]
         if rnd.random() < 0.5:
             xs = list(dict.fromkeys(xs))
         while xs.count("N") > 1:          # `None < None` is a TypeError of Python's own
@@ -71,10 +134,40 @@ def gen_script(rnd, tier):
     return L, ops
 
 
+def parse_defs(script):
+    """operand descriptors from the `def` lines of a script (what `gen_script` returns as `ops`)"""
+    def dec(s):
+        return "" if s == "-" else "".join(chr(int(t)) for t in s.split(","))
+    ops = {}
+    for l in script:
+        f = l.split()
+        if f[0] != "def":
+            continue
+        if f[2] == "P":
+            ops[f[1]] = ("P", None)
+        elif f[2] == "W":
+            ops[f[1]] = ("W", int(f[3]))
+        elif f[2] == "S":
+            ops[f[1]] = ("S", (f[3] == "1", None if f[4] == "n" else f[4] == "1"))
+        else:
+            k = (dec(f[3]), dec(f[4]))
+            if f[2] == "M":
+                ops[f[1]] = ("M", ((k[1] or "?") + "." + (k[0] or "?"), "zope.interface.declarations"))
+            elif f[2] == "F":
+                ops[f[1]] = ("F", k)
+            elif final_kind(f[2], k[0]) == "A":
+                ops[f[1]] = ("A", (None, k[1]))
+            else:
+                ops[f[1]] = ("I", k)
+    return ops
+
+
 def spec_answer(op, a, b, ops):
     """what the statement demands for `a op b`; None = the statement does not say"""
     ka = ops.get(a) if a != "N" else ("N", None)
     kb = ops.get(b) if b != "N" else ("N", None)
+    if ka is None or kb is None or outside(ka, kb):
+        return None
     A, B = ka[0], kb[0]
     if A in "IM" and B in "IM":
         x, y = ka[1], kb[1]
@@ -87,29 +180,93 @@ def spec_answer(op, a, b, ops):
                 return None
             return e if op == "eq" else not e
         return dict(lt=x < y, le=x <= y, gt=x > y, ge=x >= y)[op]
-    if A in "IM" and B == "N":
+    if A == "A" and B == "A":
+        # the pairs are (None, module): equal names, the modules decide
+        x, y = ka[1][1], kb[1][1]
+        return dict(lt=x < y, le=x <= y, gt=x > y, ge=x >= y, eq=x == y, ne=x != y)[op]
+    if A in LIB and B == "N":
         return op in ("lt", "le", "ne")
-    if A == "N" and B in "IM":
+    if A == "N" and B in LIB:
         return op in ("gt", "ge", "ne")
+    # nameless foreign operands with comparison methods of their own: "reflected comparisons agree", so the foreign
+    # operand's answer stands whichever side it is on
+    if A in LIB and B == "S" or A == "S" and B in LIB:
+        e, o = (kb if B == "S" else ka)[1]
+        if op in ("eq", "ne"):
+            return e if op == "eq" else not e
+        return o                                   # None: no ordering method either side -> not judged here (see reflected)
+    if op in ("eq", "ne") and (A in LIB and B == "W" or A == "W" and B in LIB):
+        # a transparent proxy answers what its target answers
+        if B == "W":
+            return spec_answer(op, a, str(kb[1]), ops)
+        return spec_answer(op, str(ka[1]), b, ops)
     return None
 
 
 def oracle(chk, lines, outs, opsets):
     bad = []
     si = -1
+    ans = {}
+
+    def pair_laws():
+        """`!=` is the negation of `==` and reflected comparisons agree — for every pair with a library operand on at
+        least one side, whatever the other operand is (all ordered pairs x all operators were asked)"""
+        for (op, a, b), (i, got) in ans.items():
+            ka, kb = ops.get(a, ("N", None)), ops.get(b, ("N", None))
+            if ka[0] not in LIB and kb[0] not in LIB:
+                continue
+            foreign = ka[0] in "WS" or kb[0] in "WS"
+            rev = ans.get((SWAP[op], b, a))
+            if rev is not None and (a, b) <= (b, a):
+                chk.count("reflected_judged")
+                if foreign:
+                    chk.count("reflected_judged_vs_foreign_with_own_methods")
+                if rev[1] != got:
+                    bad.append((i, "reflected comparisons disagree: %s %s %s gives %s but %s %s %s gives %s [%r vs %r]" % (
+                        a, op, b, got, b, SWAP[op], a, rev[1], ka, kb)))
+            if op == "eq":
+                ne = ans.get(("ne", a, b))
+                if ne is not None:
+                    chk.count("negation_judged")
+                    if {got, ne[1]} != {"0", "1"}:
+                        bad.append((ne[0], "!= is not the negation of ==: %s == %s gives %s and %s != %s gives %s [%r vs %r]" % (
+                            a, b, got, a, b, ne[1], ka, kb)))
+        ans.clear()
+
     for i, (line, out) in enumerate(zip(lines, outs)):
         f = line.split()
         if f[0] == "reset":
+            pair_laws()
             si += 1
             ops = {str(k): v for k, v in opsets[si].items()}
+            chk.count("operands_none_named", sum(1 for v in ops.values() if v[0] == "A"))
+            chk.count("operands_proxy", sum(1 for v in ops.values() if v[0] == "W"))
+            chk.count("operands_sentinel", sum(1 for v in ops.values() if v[0] == "S"))
+            mods = [v[1][1] for v in ops.values() if v[0] == "A"]
+            if len(mods) != len(set(mods)):
+                chk.count("scripts_with_equal_none_named_pairs")
+            continue
+        if f[0] == "cmpx":
+            # outside the domain (None-named interface vs string-named operand): executed, never judged
+            chk.count("pairs_outside_domain_none_vs_str_name")
             continue
         if out.startswith("err") or out.startswith("nonbool") or out == "bad":
             bad.append((i, "%s -> %s" % (line, out)))
             continue
-        if f[0] == "cmp":
+        if f[0] == "def" and f[2] in "ID":
+            want = "ok name=" + ("None" if ops[f[1]][0] == "A" else f[3])
+            if out != want:
+                bad.append((i, "%s: the constructor reports %s, expected %s" % (line, out, want)))
+        elif f[0] == "cmp":
+            ans[(f[1], f[2], f[3])] = (i, out)
             want = spec_answer(f[1], f[2], f[3], ops)
             if want is not None:
                 chk.count("answers_judged")
+                a, b = ops.get(f[2], ("N", None)), ops.get(f[3], ("N", None))
+                if a[0] == "A" or b[0] == "A":
+                    chk.count("answers_judged_none_named")
+                if a[0] in "WS" or b[0] in "WS":
+                    chk.count("answers_judged_vs_foreign_with_own_methods")
                 if out != ("1" if want else "0"):
                     bad.append((i, "%s %s %s gives %s, the (name, module) order demands %s [%r vs %r]" % (
                         f[2], f[1], f[3], out, want, ops.get(f[2]), ops.get(f[3]))))
@@ -121,18 +278,26 @@ def oracle(chk, lines, outs, opsets):
             if "HASH-INCONSISTENT" in out:
                 bad.append((i, "%s: equal objects with different hash / not found in dict or set" % line))
             a, b = ops.get(f[1]), ops.get(f[2])
-            if a and b and a[0] == "I" and b[0] == "I" and a[1] == b[1] and not out.startswith("1"):
-                bad.append((i, "interfaces %s and %s have equal keys %r and different hashes" % (f[1], f[2], a[1])))
+            if a and b and a[0] in "IA" and b[0] == a[0] and a[1] == b[1]:
+                chk.count("equal_pairs_hash_judged")
+                if a[0] == "A" and f[1] != f[2]:
+                    chk.count("equal_pairs_hash_judged_none_named_distinct")
+                if not out.startswith("1"):
+                    bad.append((i, "interfaces %s and %s have equal keys %r and different hashes" % (f[1], f[2], a[1])))
         elif f[0] == "sort":
             got = out.split()
             inp = f[1:]
             if sorted(got) != sorted(inp):
                 bad.append((i, "sorted() result %s is not a permutation of %s" % (got, inp)))
             else:
-                ks = [(1, ()) if g == "N" else (0, ops[g][1]) for g in got]
+                # (None, module) pairs sort among themselves by module: "" stands for the shared None
+                ks = [(1, ()) if g == "N" else (0, ("", ops[g][1][1]) if ops[g][0] == "A" else ops[g][1]) for g in got]
                 if any(ks[j] > ks[j + 1] for j in range(len(ks) - 1)):
                     bad.append((i, "sorted() result %s is not ordered by (name, module) with None last: %s" % (got, ks)))
                 chk.count("sorts_judged")
+                if any(g != "N" and ops[g][0] == "A" for g in got):
+                    chk.count("sorts_judged_none_named")
+    pair_laws()
     return bad
 
 
@@ -152,6 +317,14 @@ def run_all(chk, lines, modes=("c", "py"), seeds=SEEDS):
             except core.ImplBroken as e:
                 divs.append(dict(mode=m, index=-1, line="", impl="<implementation could not be run: %s>" % str(e)[-1200:], model="", script=[], label="order"))
                 continue
+            # comparisons outside the domain: record what the implementation does, then take them out of every comparison
+            for i, l in enumerate(lines):
+                if l.startswith("cmpx") and i < len(out):
+                    if hs == seeds[0]:
+                        k = "outside_domain_answers_%s" % m
+                        chk.counters.setdefault(k, {})
+                        chk.counters[k][out[i].split(":")[0]] = chk.counters[k].get(out[i].split(":")[0], 0) + 1
+                    out[i] = "outside"
             outs[(m, hs)] = out
             chk.count("lines_%s" % m, len(lines))
             for i in core.first_diffs(lines, [o.split(" HASH")[0] for o in out], models[m], limit=5):
@@ -163,6 +336,18 @@ def run_all(chk, lines, modes=("c", "py"), seeds=SEEDS):
     return outs, divs
 
 
+def related(line):
+    """a comparison line together with its reflected form and the ==/!= pair (what the pair laws are about)"""
+    f = line.split()
+    if f[0] != "cmp":
+        return [line]
+    res = [line, "cmp %s %s %s" % (SWAP[f[1]], f[3], f[2])]
+    if f[1] in ("eq", "ne"):
+        other = "ne" if f[1] == "eq" else "eq"
+        res += ["cmp %s %s %s" % (other, f[2], f[3]), "cmp %s %s %s" % (other, f[3], f[2])]
+    return list(dict.fromkeys(res))
+
+
 def check(tier):
     chk = core.Check("C12", tier)
     chk.obligations(THEOREMS)
@@ -170,17 +355,25 @@ def check(tier):
     nscripts = {"quick": 30, "thorough": 500}[tier]
     scripts, opsets = [], []
     for _ in range(nscripts):
-        s, o = gen_script(rnd, tier)
+        s, o = gen_script(rnd, tier, cmpx=True)
         scripts.append(s)
         opsets.append(o)
     lines = [l for s in scripts for l in s]
+    for s in scripts:
+        docless = {}
+        for l in s:
+            f = l.split()
+            if f[0] == "def" and f[2] == "I" and 32 in [int(t) for t in f[3].split(",") if t != "-"]:
+                docless.setdefault(f[4], set()).add(f[3])
+        if any(len(v) > 1 for v in docless.values()):
+            chk.count("scripts_with_equal_none_named_pairs_from_different_texts")
     outs, divs = run_all(chk, lines)
     fails = []
     ref = None
     for (m, hs), out in outs.items():
         for idx, msg in oracle(chk if (m, hs) == ("c", SEEDS[0]) else _Null(), lines, out, opsets):
             s, e = runner.script_of(lines, idx)
-            fails.append(dict(mode=m, seed=hs, script=[l for l in lines[s:e] if l.startswith(("reset", "def"))] + [lines[idx]], message=msg, observed=out[idx]))
+            fails.append(dict(mode=m, seed=hs, script=[l for l in lines[s:e] if l.startswith(("reset", "def"))] + related(lines[idx]), message=msg, observed=out[idx]))
         # process / hash seed / implementation independence: every run must give the same answers
         if ref is None:
             ref = ((m, hs), out)
@@ -206,9 +399,12 @@ def check(tier):
     chk.samples.append(scripts[0][:12] + scripts[0][-3:])
     chk.counters["hash_seeds"] = SEEDS
     return chk.finish(len(lines) * len(outs), chk.counters.get("pairs_name_and_module_order_disagree", 0),
-                      "operand sets of 5-9 objects (interfaces incl. equal-key distinct objects, class specifications, foreign objects with and without "
-                      "__name__/__module__, None) over a pool of empty / prefix-related / non-ASCII names and modules; ALL ordered pairs x 6 operators + hash relation, "
-                      "and sorts of shuffled mixed lists; each batch on 2 implementations x 3 PYTHONHASHSEED values; distinct_nontrivial = '<' comparisons of "
+                      "operand sets of 6-10 objects (interfaces incl. equal-key distinct objects, built docless or with a docstring, incl. names with a blank "
+                      "that the docless constructor turns into None-named interfaces with equal final pairs from different texts; class specifications; foreign "
+                      "objects with and without __name__/__module__; nameless foreign objects with comparison methods of their own: transparent proxies of an "
+                      "interface and constant-answer sentinels (mock.ANY); None) over a pool of empty / prefix-related / non-ASCII names and modules; ALL ordered "
+                      "pairs x 6 operators + hash relation (None-named vs string-named pairs are outside the domain: executed, counted, not judged), the pair laws "
+                      "(!= negates ==, reflected comparisons agree) on every pair with a library operand, and sorts of shuffled mixed lists; each batch on 2 implementations x 3 PYTHONHASHSEED values; distinct_nontrivial = '<' comparisons of "
                       "pairs whose names and modules are ordered oppositely (the case a module-before-name comparison gets wrong)")
 
 
@@ -219,31 +415,19 @@ def replay(path):
     out = core.run_impl("order", script, mode, env_extra={"PYTHONHASHSEED": str(rep.get("hashseed", "0"))})
     model = core.run_model("order", script, [mode])
     bad = 0
-    ops = {}
-    for l in script:
-        f = l.split()
-        if f[0] == "def":
-            def dec(s):
-                return "" if s == "-" else "".join(chr(int(t)) for t in s.split(","))
-            if f[2] == "P":
-                ops[f[1]] = ("P", None)
-            else:
-                k = (dec(f[3]), dec(f[4]))
-                if f[2] == "M":
-                    k = ((k[1] or "?") + "." + (k[0] or "?"), "zope.interface.declarations")
-                ops[f[1]] = (f[2], k)
-    for l, o, m in zip(script, out, model):
-        f = l.split()
-        note = ""
-        if f[0] == "cmp":
-            want = spec_answer(f[1], f[2], f[3], ops)
-            if want is not None and o != ("1" if want else "0"):
-                note = "   SPEC demands %s" % want
-                bad += 1
+    if not script or script[0] != "reset":
+        script = ["reset"] + list(script)
+        out = ["ok"] + list(out)
+        model = ["ok"] + list(model)
+    out = ["outside" if l.startswith("cmpx") else o for l, o in zip(script, out)]
+    notes = {}
+    for i, msg in oracle(_Null(), script, out, [parse_defs(script)]):
+        notes.setdefault(i, []).append("SPEC: " + msg)
+    for i, (l, o, m) in enumerate(zip(script, out, model)):
         if o.split(" HASH")[0] != m:
-            note += "   MODEL: " + m
-            bad += 1
-        print("%-40s impl: %s%s" % (l, o, note))
+            notes.setdefault(i, []).append("MODEL: " + m)
+        bad += len(notes.get(i, ()))
+        print("%-40s impl: %s%s" % (l, o, "".join("   " + x for x in notes.get(i, ()))))
     if bad:
         print("VIOLATION property=C12 replay=%s" % path)
         return 1
